@@ -31,6 +31,7 @@ class ReplEnv(object):
     def __init__(self):
         self.state = 'top'
         self.inbuf = ''
+        self.nblock = 0          # lines received inside the current block (blank ones included)
 
     def feed(self, text):
         out = ''
@@ -46,11 +47,13 @@ class ReplEnv(object):
                 return ln[2:].replace('~', '\n') + PS1
             if ln == 'open':
                 self.state = 'cont'
+                self.nblock = 0
                 return PS2
             return PS1
         if ln.startswith('close:'):
             self.state = 'top'
-            return ln[6:].replace('~', '\n') + PS1
+            return ln[6:].replace('~', '\n') + 'b' * self.nblock + PS1
+        self.nblock += 1
         return PS2
 
     def interrupt(self):
@@ -104,7 +107,9 @@ def make_command(rng, big=False):
         return ('c:', '', False)
     if k < 0.65:
         o = payload()
-        return ('open\nmore\nclose:' + o, o.replace('~', '\n'), False)
+        # a block with one ordinary, one blank and one whitespace-only line inside: the REPL reports how many it got
+        inner = rng.choice([['more'], ['more', ''], ['', 'more', '  '], ['']])
+        return ('open\n' + '\n'.join(inner) + '\nclose:' + o, o.replace('~', '\n') + 'b' * len(inner), False)
     if k < 0.75:
         o1, o2 = payload(), payload()
         return ('c:' + o1 + '\nc:' + o2, (o1 + o2).replace('~', '\n'), False)        # two complete lines in one command
@@ -245,6 +250,8 @@ def real_repl(kind, rng, ncmds, ctx, big_sizes):
                     cmd, want, inc = 'true', '', False
                 elif k < 0.7:
                     cmd, want, inc = 'for i in 1 2\ndo echo %s$i\ndone' % tok, '%s1\r\n%s2\r\n' % (tok, tok), False
+                elif k < 0.75:
+                    cmd, want, inc = "echo '%s\n\n%s'" % (tok, tok), '%s\r\n\r\n%s\r\n' % (tok, tok), False      # blank line inside a quoted string
                 elif k < 0.8:
                     cmd, want, inc = 'echo "%s' % tok, None, True
                 else:
@@ -259,6 +266,8 @@ def real_repl(kind, rng, ncmds, ctx, big_sizes):
                     cmd, want, inc = 'x = 1', '', False
                 elif k < 0.7:
                     cmd, want, inc = 'for i in range(2):\n    print(%r, i)\n' % tok, '%s 0\r\n%s 1\r\n' % (tok, tok), False
+                elif k < 0.75:
+                    cmd, want, inc = 's = \'\'\'%s\n\n%s\'\'\'\nprint(len(s))' % (tok, tok), '%d\r\n' % (2 * len(tok) + 2), False
                 elif k < 0.8:
                     cmd, want, inc = 'for i in range(2):', None, True
                 else:
